@@ -26,7 +26,7 @@ impl Check for C10 {
     }
     fn runs(&self, tier: Tier) -> u64 {
         match tier {
-            Tier::Quick => 150_000,
+            Tier::Quick => 250_000,
             Tier::Thorough => 25_000_000,
         }
     }
